@@ -99,6 +99,18 @@ class OptV:
 
 
 @dataclass
+class DictV:
+    """dict with keys of one kind ('obj' | 'int'); `has` : Array(K, Bool); values either scalars (`val` : Array(K, V)) or lists
+    (`varr` : Array(K, Array(Int, E)), `vlen` : Array(K, Int)).  Iteration order is not modelled (iterating a dict is out of subset)."""
+    key: str
+    vt: str                        # 'int' | 'obj' | 'bool' | 'list[int]' | 'list[obj]'
+    has: object
+    val: object = None
+    varr: object = None
+    vlen: object = None
+
+
+@dataclass
 class FuncV:
     kind: str                      # 'uf' | 'closure' | 'contract'
     data: object = None
@@ -136,12 +148,20 @@ def elem_term(lst_elem: str, v):
             return v.t
         if isinstance(v, NoneV):
             return NONE_OBJ
+        if isinstance(v, DictV) and v.key == "int" and v.vt == "obj" and getattr(v, "box", None) is not None:
+            return v.box
     if lst_elem == "list[int]" and isinstance(v, ListV) and v.elem == "int":
         return IntList.mk(v.arr, v.n)
     raise OutOfSubset(f"cannot store {type(v).__name__} in list[{lst_elem}]")
 
 
+DK_HAS = z3.Function("dictobj.has", Obj, z3.IntSort(), z3.BoolSort())
+DK_VAL = z3.Function("dictobj.val", Obj, z3.IntSort(), Obj)
+
+
 def elem_kind_of(v):
+    if isinstance(v, DictV) and v.key == "int" and v.vt == "obj":
+        return "obj"            # a small int-keyed dict stored in a list: boxed into an opaque object with accessor functions
     if isinstance(v, (IntV, NoneV)):
         return "int"
     if isinstance(v, BoolV):
@@ -205,6 +225,9 @@ class Executor:
         self.partial_loops: list = []
         self._binders: list = []
         self._number_loops(fn_node)
+        self.ret_ids = {}
+        for n_, r_ in enumerate(sorted((n for n in ast.walk(fn_node) if isinstance(n, ast.Return)), key=lambda n: (n.lineno, n.col_offset))):
+            self.ret_ids[id(r_)] = n_
 
     def _number_loops(self, node):
         k = 0
@@ -257,6 +280,11 @@ class Executor:
             if ek is None:
                 raise OutOfSubset(f"type {ty}")
             return ListV(z3.Const(name, z3.ArraySort(z3.IntSort(), ELEM_SORT[ek])), z3.Int(name + "_len"), ek)
+        if ty.startswith("dict["):
+            kt, vt = [x.strip() for x in _split_top(ty[5:-1])]
+            if kt not in ("obj", "int") or vt not in ("int", "obj", "bool", "list[int]", "list[obj]"):
+                raise OutOfSubset(f"type {ty}")
+            return self.mk_dict(name, kt, vt)
         if ty.startswith("opt[") or ty.startswith("obj"):
             opt = ty.startswith("opt[")
             inner = ty[4:-1] if opt else ty
@@ -275,6 +303,52 @@ class Executor:
             return FuncV("uf", (f, rs))
         raise OutOfSubset(f"type {ty}")
 
+    def mk_dict(self, name, kt, vt, fresh_names=False):
+        K = ELEM_SORT[kt]
+        mk = (lambda n_, srt: fresh(n_, srt)) if fresh_names else (lambda n_, srt: z3.Const(n_, srt))
+        d = DictV(kt, vt, mk(name + "_has", z3.ArraySort(K, z3.BoolSort())))
+        if vt.startswith("list["):
+            E = ELEM_SORT[vt[5:-1]]
+            d.varr = mk(name + "_varr", z3.ArraySort(K, z3.ArraySort(z3.IntSort(), E)))
+            d.vlen = mk(name + "_vlen", z3.ArraySort(K, z3.IntSort()))
+        else:
+            d.val = mk(name + "_val", z3.ArraySort(K, ELEM_SORT[vt]))
+        return d
+
+    def box_dict(self, d: DictV, st):
+        """an int-keyed dict of opaque values as ONE opaque object o with  dictobj.has(o,k) == (k in d)  and  dictobj.val(o,k) == d[k]"""
+        if not (d.key == "int" and d.vt == "obj"):
+            raise OutOfSubset("only dict[int,obj] values can be stored in lists / returned as objects")
+        if getattr(d, "box", None) is None:
+            o = fresh("dictobj", Obj)
+            k = fresh("k", z3.IntSort())
+            self.define(st, z3.ForAll([k], z3.And(DK_HAS(o, k) == z3.Select(d.has, k), DK_VAL(o, k) == z3.Select(d.val, k)), patterns=[DK_HAS(o, k), DK_VAL(o, k)]))
+            d = DictV(d.key, d.vt, d.has, d.val)
+            d.box = o
+        return d
+
+    def dict_get(self, d: DictV, key_term):
+        if d.vt.startswith("list["):
+            n = z3.Select(d.vlen, key_term)
+            return ListV(z3.Select(d.varr, key_term), z3.If(n >= 0, n, 0), d.vt[5:-1])     # a stored list has a non-negative length
+        t = z3.Select(d.val, key_term)
+        return {"int": IntV, "obj": ObjV, "bool": BoolV}[d.vt](t)
+
+    def attr_of(self, base: ObjV, attr: str, st):
+        """attribute of an opaque object by declared type (contract key `attrs`): an uninterpreted function of the object.
+        Sound because the subset has no attribute stores (an assignment to an attribute is rejected)."""
+        ty = self.c.get("attrs", {}).get(attr)
+        if ty is None:
+            return None
+        if ty.startswith("list["):
+            ek = ty[5:-1]
+            fa = z3.Function("attr:" + attr + ".arr", Obj, z3.ArraySort(z3.IntSort(), ELEM_SORT[ek]))
+            fl = z3.Function("attr:" + attr + ".len", Obj, z3.IntSort())
+            n = fl(base.t)
+            return ListV(fa(base.t), z3.If(n >= 0, n, 0), ek)
+        f = z3.Function("attr:" + attr, Obj, ELEM_SORT[ty])
+        return {"int": IntV, "obj": ObjV, "bool": BoolV}[ty](f(base.t))
+
     # ---- expression evaluation -------------------------------------------------------------
     def truth(self, v, st):
         if isinstance(v, BoolV):
@@ -292,6 +366,13 @@ class Executor:
         if isinstance(v, OptV):
             return z3.Not(v.none)          # a wrapped object (e.g. Var) is truthy, None is not
         raise OutOfSubset(f"truthiness of {type(v).__name__}")
+
+    def key_term(self, d: DictV, k):
+        if d.key == "int":
+            return self.as_int(k)
+        if isinstance(k, ObjV):
+            return k.t
+        raise OutOfSubset(f"dict key of kind {type(k).__name__}")
 
     def eq(self, a, b, st):
         if isinstance(a, OptV) or isinstance(b, OptV):
@@ -396,9 +477,9 @@ class Executor:
             return st.env[node.id]
         if spec and node.id == "result":
             raise OutOfSubset("result used before return")
-        if spec and node.id not in self.globals:
+        if spec and node.id not in self.globals and node.id not in getattr(self, "local_imports", ()) and node.id not in self.c.get("consts", ()):
             raise OutOfSubset(f"unknown name in specification: {node.id}")
-        if node.id in self.globals or spec:
+        if node.id in self.globals or spec or node.id in getattr(self, "local_imports", ()):
             return ObjV(self.const_obj(node.id))     # module-level constant / class: opaque, named by its text
         raise OutOfSubset(f"unbound name {node.id}")
 
@@ -407,9 +488,15 @@ class Executor:
         sf = self.c.get("self_fields", {})
         if text in sf:
             return st.env["§" + text]
+        if text in self.c.get("self_state", {}):
+            return st.env[self.c["self_state"][text][0]]          # attribute of self that the function may assign: a symbol of the state
         base = self.ev(node.value, st, spec)
         if isinstance(base, ObjV) and node.attr in base.fields:
             return base.fields[node.attr]
+        if isinstance(base, ObjV) and not (isinstance(node.value, ast.Name) and node.value.id not in st.env):
+            r = self.attr_of(base, node.attr, st)
+            if r is not None:
+                return r
         if isinstance(base, ObjV) and not base.fields and isinstance(node.value, (ast.Name, ast.Attribute)) and ast.unparse(node.value) not in st.env:
             return ObjV(self.const_obj(text))     # Enum member / module attribute
         raise OutOfSubset(f"attribute {text}")
@@ -474,6 +561,12 @@ class Executor:
             elif isinstance(op, (ast.Lt, ast.LtE, ast.Gt, ast.GtE)):
                 x, y = self.as_int(left), self.as_int(right)
                 out.append({ast.Lt: x < y, ast.LtE: x <= y, ast.Gt: x > y, ast.GtE: x >= y}[type(op)])
+            elif isinstance(op, (ast.In, ast.NotIn)) and isinstance(right, ObjV) and self.c.get("boxed_dicts"):
+                t = DK_HAS(right.t, self.as_int(left))
+                out.append(t if isinstance(op, ast.In) else z3.Not(t))
+            elif isinstance(op, (ast.In, ast.NotIn)) and isinstance(right, DictV):
+                t = z3.Select(right.has, self.key_term(right, left))
+                out.append(t if isinstance(op, ast.In) else z3.Not(t))
             elif isinstance(op, (ast.In, ast.NotIn)) and isinstance(right, ListV):
                 j = fresh("j", z3.IntSort())
                 t = z3.Exists([j], z3.And(0 <= j, j < right.n, right.arr[j] == elem_term(right.elem, left)))
@@ -515,6 +608,17 @@ class Executor:
         if isinstance(v, IntV):
             return OptV(z3.BoolVal(False), v.t)
         raise OutOfSubset("expected Optional[int]")
+
+    def ev_Dict(self, node, st, spec):
+        if node.keys:
+            raise OutOfSubset("non-empty dict literal")
+        ty = self.c.get("dict_types", {}).get("{}")
+        if ty is None:
+            raise OutOfSubset("empty dict literal needs dict_types={'{}': 'dict[K,V]'} in the contract")
+        kt, vt = [x.strip() for x in _split_top(ty[5:-1])]
+        d = self.mk_dict("empty", kt, vt, fresh_names=True)
+        d.has = z3.K(ELEM_SORT[kt], z3.BoolVal(False))
+        return d
 
     def ev_Tuple(self, node, st, spec):
         return TupleV([self.ev(e, st, spec) for e in node.elts])
@@ -561,6 +665,16 @@ class Executor:
             hi = self.as_int(self.ev(node.slice.upper, st, spec)) if node.slice.upper is not None else None
             return self.slice_(base, lo, hi, st)
         idx = self.ev(node.slice, st, spec)
+        if isinstance(base, DictV):
+            kt = self.key_term(base, idx)
+            if not spec:
+                self.vc(st, "safety", f"safety.key#{ast.unparse(node)[:40]}", z3.Select(base.has, kt), "dict key present")
+            return self.dict_get(base, kt)
+        if isinstance(base, ObjV) and self.c.get("boxed_dicts") and isinstance(idx, (IntV, BoolV)):
+            k = self.as_int(idx)
+            if not spec:
+                self.vc(st, "safety", f"safety.key#{ast.unparse(node)[:40]}", DK_HAS(base.t, k), "dict key present")
+            return ObjV(DK_VAL(base.t, k))
         if isinstance(base, TupleV):
             t = z3.simplify(self.as_int(idx))
             if z3.is_int_value(t):
@@ -626,11 +740,18 @@ class Executor:
                 raise OutOfSubset("list() of non-list")
             if name == "int" and len(node.args) == 1:
                 return IntV(self.as_int(self.ev(node.args[0], st, spec)))
+            if name == "float" and len(node.args) == 1 and isinstance(node.args[0], ast.Constant) and isinstance(node.args[0].value, str):
+                return ObjV(self.const_obj(text))          # float('nan') / float('inf'): a distinguished opaque constant
             if name == "bool" and len(node.args) == 1:
                 return BoolV(self.truth(self.ev(node.args[0], st, spec), st))
             if name == "isinstance":
                 if text in sf:
                     return st.env["§" + text]
+                if len(node.args) == 2 and isinstance(node.args[1], (ast.Name, ast.Attribute)):
+                    x = self.ev(node.args[0], st, spec)
+                    if isinstance(x, ObjV):
+                        isf = z3.Function("isinstance", Obj, Obj, z3.BoolSort())      # uninterpreted: a fixed property of (object, class)
+                        return BoolV(isf(x.t, self.const_obj(ast.unparse(node.args[1]))))
                 raise OutOfSubset(f"isinstance not declared in self_fields: {text}")
             if spec:
                 r = self.spec_call(name, node, st)
@@ -642,6 +763,12 @@ class Executor:
             if name in self.c.get("uses", {}):
                 return self.call_contract(self.c["uses"][name], node.args, st, name)
             raise OutOfSubset(f"call to {name}")
+        if isinstance(fn, ast.Attribute) and fn.attr == "get" and len(node.args) in (1, 2) and not node.keywords:
+            basev = self.ev(fn.value, st, spec) if not (isinstance(fn.value, ast.Name) and fn.value.id not in st.env) else None
+            if isinstance(basev, DictV) and not basev.vt.startswith("list["):
+                kt = self.key_term(basev, self.ev(node.args[0], st, spec))
+                dflt = self.ev(node.args[1], st, spec) if len(node.args) == 2 else NoneV()
+                return self.ite(z3.Select(basev.has, kt), self.dict_get(basev, kt), dflt)
         if isinstance(fn, ast.Attribute):
             qual = ast.unparse(fn)
             if qual in self.c.get("uses", {}):
@@ -677,9 +804,17 @@ class Executor:
         raise OutOfSubset("callable")
 
     def call_contract(self, callee: dict, arg_nodes, st, name):
-        args = [self.ev(a, st, False) for a in arg_nodes]
+        if len(arg_nodes) == 1 and isinstance(arg_nodes[0], ast.Starred):
+            # f(*xs): the callee's contract has ONE list parameter standing for the positional arguments
+            if len(callee["params"]) != 1 or not list(callee["params"].values())[0].startswith("list["):
+                raise OutOfSubset("star call needs a callee contract with a single list parameter")
+            args = [self.ev(arg_nodes[0].value, st, False)]
+        else:
+            args = [self.ev(a, st, False) for a in arg_nodes]
         sub = State()
         sub.pc = st.pc
+        if name in st.env and isinstance(st.env[name], ObjV):
+            sub.env["callee"] = st.env[name]          # the callable object itself (a local variable holding a function)
         for (pn, pty), v in zip(callee["params"].items(), args):
             if pty == "opt[int]":
                 v = self.as_opt(v)
@@ -714,6 +849,22 @@ class Executor:
             if name == "forall":
                 return BoolV(z3.ForAll([j], z3.Implies(z3.And(lo <= j, j < hi), body)))
             return BoolV(z3.Exists([j], z3.And(lo <= j, j < hi, body)))
+        if name in ("forallo", "existso") and len(a) == 2 and isinstance(a[0], ast.Name):     # over all (opaque) objects
+            j = fresh(a[0].id, Obj)
+            sub = st.clone()
+            sub.env[a[0].id] = ObjV(j)
+            body = self.truth(self.ev(a[1], sub, True), sub)
+            return BoolV(z3.ForAll([j], body) if name == "forallo" else z3.Exists([j], body))
+        if name in ("forall", "exists") and len(a) == 2 and isinstance(a[0], ast.Name):      # over all integers
+            j = fresh(a[0].id, z3.IntSort())
+            sub = st.clone()
+            sub.env[a[0].id] = IntV(j)
+            self._binders.append(j)
+            try:
+                body = self.truth(self.ev(a[1], sub, True), sub)
+            finally:
+                self._binders.pop()
+            return BoolV(z3.ForAll([j], body) if name == "forall" else z3.Exists([j], body))
         if name == "sum" and len(a) == 4 and isinstance(a[0], ast.Name):
             j = fresh(a[0].id, z3.IntSort())
             sub = st.clone()
@@ -795,6 +946,16 @@ class Executor:
     def st_Pass(self, s, st):
         return [(st, "fall", None)]
 
+    def st_ImportFrom(self, s, st):
+        self.dropped.add("local import statements (imported names are opaque constants)")
+        for a in s.names:
+            if (a.asname or a.name) in st.env:
+                raise OutOfSubset("import rebinding a local name")
+        self.local_imports = getattr(self, "local_imports", set()) | {a.asname or a.name for a in s.names}
+        return [(st, "fall", None)]
+
+    st_Import = st_ImportFrom
+
     def st_Nonlocal(self, s, st):
         return [(st, "fall", None)]
 
@@ -812,6 +973,8 @@ class Executor:
             lst = st.env[name]
             if meth == "append" and len(v.args) == 1:
                 x = self.ev(v.args[0], st)
+                if isinstance(x, DictV):
+                    x = self.box_dict(x, st)
                 if z3.is_int_value(z3.simplify(lst.n)) and z3.simplify(lst.n).as_long() == 0 and lst.elem != elem_kind_of(x) and getattr(lst, "untyped", False):
                     lst = ListV(fresh(name, z3.ArraySort(z3.IntSort(), ELEM_SORT[elem_kind_of(x)])), lst.n, elem_kind_of(x))
                 st.env[name] = ListV(z3.Store(lst.arr, lst.n, elem_term(lst.elem, x)), lst.n + 1, lst.elem)
@@ -836,6 +999,17 @@ class Executor:
         raise OutOfSubset(f"expression statement {ast.unparse(s)[:50]}")
 
     def assign(self, target, val, st):
+        ss = self.c.get("self_state", {})
+        if isinstance(target, ast.Attribute) and ast.unparse(target) in ss:
+            return self.assign(ast.Name(id=ss[ast.unparse(target)][0], ctx=ast.Store()), val, st)
+        if isinstance(target, ast.Subscript) and isinstance(target.value, ast.Attribute) and ast.unparse(target.value) in ss:
+            t2 = ast.Subscript(value=ast.Name(id=ss[ast.unparse(target.value)][0], ctx=ast.Load()), slice=target.slice, ctx=ast.Store())
+            return self.assign(t2, val, st)
+        if isinstance(target, ast.Name) and isinstance(val, ListV) and getattr(val, "untyped", False):
+            ty = self.c.get("local_types", {}).get(target.id)          # `xs = []`: element kind declared by the contract
+            if ty and ty.startswith("list["):
+                ek = ty[5:-1]
+                val = ListV(fresh(target.id, z3.ArraySort(z3.IntSort(), ELEM_SORT[ek])), z3.IntVal(0), ek)
         if isinstance(target, ast.Name):
             if isinstance(st.env.get(target.id), OptV) and isinstance(val, (IntV, NoneV)):
                 val = self.as_opt(val)
@@ -846,6 +1020,17 @@ class Executor:
                     self.assign(t, v, st)
             else:
                 raise OutOfSubset("unpacking")
+        elif isinstance(target, ast.Subscript) and isinstance(target.value, ast.Name) and isinstance(st.env.get(target.value.id), DictV):
+            d = st.env[target.value.id]
+            kt = self.key_term(d, self.ev(target.slice, st))
+            nd = DictV(d.key, d.vt, z3.Store(d.has, kt, z3.BoolVal(True)))
+            if d.vt.startswith("list["):
+                if not (isinstance(val, ListV) and val.elem == d.vt[5:-1]):
+                    raise OutOfSubset("dict store of a value of the wrong kind")
+                nd.varr, nd.vlen = z3.Store(d.varr, kt, val.arr), z3.Store(d.vlen, kt, val.n)
+            else:
+                nd.val = z3.Store(d.val, kt, elem_term(d.vt, val))
+            st.env[target.value.id] = nd
         elif isinstance(target, ast.Subscript) and isinstance(target.value, ast.Name) and not isinstance(target.slice, ast.Slice):
             lst = st.env.get(target.value.id)
             if not isinstance(lst, ListV):
@@ -892,9 +1077,14 @@ class Executor:
         return [(st, "fall", None)]
 
     def st_Return(self, s, st):
+        st.env["§ret"] = IntV(z3.IntVal(self.ret_ids.get(id(s), -1)))
         if isinstance(s.value, ast.ListComp):
             return [(st, "return", self.listcomp(s.value, st))]
-        return [(st, "return", self.ev(s.value, st) if s.value is not None else NoneV())]
+        v = self.ev(s.value, st) if s.value is not None else NoneV()
+        if isinstance(v, DictV) and self.c.get("boxed_dicts"):
+            v = self.box_dict(v, st)
+            v = ObjV(v.box)
+        return [(st, "return", v)]
 
     def st_Raise(self, s, st):
         name = None
@@ -941,10 +1131,14 @@ class Executor:
     # ---- loops -----------------------------------------------------------------------------------------
     def modified_names(self, body):
         names = set()
+        ss = self.c.get("self_state", {})
         for n in ast.walk(ast.Module(body=body, type_ignores=[])):
             if isinstance(n, (ast.Assign, ast.AnnAssign, ast.AugAssign)):
                 targets = n.targets if isinstance(n, ast.Assign) else [n.target]
                 for t in targets:
+                    for m in ast.walk(t):
+                        if isinstance(m, ast.Attribute) and ast.unparse(m) in ss:
+                            names.add(ss[ast.unparse(m)][0])
                     for m in ast.walk(t):
                         if isinstance(m, ast.Name):
                             names.add(m.id)
@@ -974,6 +1168,8 @@ class Executor:
                 st.env[nm] = ObjV(fresh(nm, Obj), {}, v.maybe_none)
             elif isinstance(v, OptV):
                 st.env[nm] = OptV(fresh(nm + "_none", z3.BoolSort()), fresh(nm, z3.IntSort()))
+            elif isinstance(v, DictV):
+                st.env[nm] = self.mk_dict(nm, v.key, v.vt, fresh_names=True)
             elif isinstance(v, NoneV):
                 raise OutOfSubset(f"loop modifies {nm} which is None at loop entry (declare its type in the loop spec: types={{'{nm}': 'opt[int]'}})")
             else:
@@ -1225,6 +1421,10 @@ class Executor:
             if sym not in st.env:
                 st.env[sym] = self.make_param(sym, ty)
             st.env["§" + text] = st.env[sym]
+        for text, (sym, ty) in c.get("self_state", {}).items():
+            st.env[sym] = self.make_param(sym, ty)
+            if isinstance(st.env[sym], ListV):
+                st.pc.append(st.env[sym].n >= 0)
         for gname, (gty, ginit) in c.get("ghost", {}).items():
             st.env[gname] = self.ev(_parse(ginit), st, True) if ginit is not None else self.make_param(gname, gty)
         st.old = dict(st.env)
@@ -1242,6 +1442,12 @@ class Executor:
                 for n, e in enumerate(c.get("ensures", [])):
                     g = self.truth(self.ev(_parse(e), sx, True), sx)
                     self.vc(sx, "post", f"post#{n}", g, e)
+                # postconditions attached to one `return` statement (by ordinal in source order): the statements return values of different kinds
+                rid = sx.env.get("§ret")
+                rid = z3.simplify(rid.t).as_long() if rid is not None else -1
+                for n, e in enumerate(c.get("ensures_at", {}).get(rid, [])):
+                    g = self.truth(self.ev(_parse(e), sx, True), sx)
+                    self.vc(sx, "post", f"post@return{rid}#{n}", g, e)
             elif sig == "raise":
                 allowed = c.get("raises", {})
                 if val in allowed:
